@@ -129,4 +129,350 @@ theorem written_caps_mono (e : Enum) (he : e = geod ∨ e = geodx) (caps extra o
 /-- non-vacuity: a line created with `DISTANCE_IN | AREA` asked for everything writes lat2, azi2, S12 only -/
 example : written geod (geod_DISTANCE_IN ||| geod_AREA) geod_ALL false = [.lat2, .azi2, .S12] := by decide
 
+/-! ### dataflow model of `GenPosition`: value independence of the mask -/
+
+set_option linter.unusedSimpArgs false
+
+theorem and_or_ne_zero_left (x a b : Nat) (h : (x &&& a != 0) = true) : (x &&& (a ||| b) != 0) = true := by
+  rw [Nat.and_or_distrib_left]
+  simp only [bne_iff_ne, ne_eq, Nat.or_eq_zero_iff, not_and] at h ⊢
+  intro h1; exact absurd h1 h
+
+theorem and_or_ne_zero_right (x a b : Nat) (h : (x &&& b != 0) = true) : (x &&& (a ||| b) != 0) = true := by
+  rw [Nat.or_comm]; exact and_or_ne_zero_left x b a h
+
+/-- a requested length output switches on the computation of `B12`/`AB1` -/
+theorem wantLen_of (e : Enum) (eff : Nat) (o : Out) (ho : o = .s12 ∨ o = .m12 ∨ o = .M12 ∨ o = .M21)
+    (h : want e eff o = true) : wantLen e eff = true := by
+  unfold want at h; unfold wantLen
+  rcases ho with rfl | rfl | rfl | rfl
+  · exact and_or_ne_zero_left _ _ _ (and_or_ne_zero_left _ _ _ h)
+  · exact and_or_ne_zero_left _ _ _ (and_or_ne_zero_right _ _ _ h)
+  · exact and_or_ne_zero_right _ _ _ h
+  · exact and_or_ne_zero_right _ _ _ h
+
+theorem wantRG_of (e : Enum) (eff : Nat) (o : Out) (ho : o = .m12 ∨ o = .M12 ∨ o = .M21)
+    (h : want e eff o = true) : wantRG e eff = true := by
+  unfold want at h; unfold wantRG
+  rcases ho with rfl | rfl | rfl
+  · exact and_or_ne_zero_left _ _ _ h
+  · exact and_or_ne_zero_right _ _ _ h
+  · exact and_or_ne_zero_right _ _ _ h
+
+/-- **series line**: the term assigned to output `o` is the same for any two reduced masks that both request `o`
+    (and, for the longitude, agree on `LONG_UNROLL`, which by documentation changes the meaning of `lon2`) -/
+theorem genPosG_mask_independent (e : Enum) (lc eff1 eff2 : Nat) (arcmode bigf : Bool) (x : T) (o : Out)
+    (h1 : want e eff1 o = true) (h2 : want e eff2 o = true)
+    (hu : o = .lon2 → wantUnroll e eff1 = wantUnroll e eff2) :
+    genPosG e lc eff1 arcmode bigf x o = genPosG e lc eff2 arcmode bigf x o := by
+  cases o
+  case lat2 => simp only [genPosG, h1, h2]
+  case azi2 => simp only [genPosG, h1, h2]
+  case lon2 => simp only [genPosG, h1, h2, hu rfl]
+  case s12 =>
+    have a := wantLen_of e eff1 .s12 (Or.inl rfl) h1
+    have b := wantLen_of e eff2 .s12 (Or.inl rfl) h2
+    simp only [genPosG, h1, h2, a, b]
+  case m12 =>
+    have a := wantLen_of e eff1 .m12 (Or.inr (Or.inl rfl)) h1
+    have b := wantLen_of e eff2 .m12 (Or.inr (Or.inl rfl)) h2
+    have c := wantRG_of e eff1 .m12 (Or.inl rfl) h1
+    have d := wantRG_of e eff2 .m12 (Or.inl rfl) h2
+    simp only [genPosG, h1, h2, a, b, c, d]
+  case M12 =>
+    have a := wantLen_of e eff1 .M12 (Or.inr (Or.inr (Or.inl rfl))) h1
+    have b := wantLen_of e eff2 .M12 (Or.inr (Or.inr (Or.inl rfl))) h2
+    have c := wantRG_of e eff1 .M12 (Or.inr (Or.inl rfl)) h1
+    have d := wantRG_of e eff2 .M12 (Or.inr (Or.inl rfl)) h2
+    simp only [genPosG, h1, h2, a, b, c, d]
+  case M21 =>
+    have a := wantLen_of e eff1 .M21 (Or.inr (Or.inr (Or.inr rfl))) h1
+    have b := wantLen_of e eff2 .M21 (Or.inr (Or.inr (Or.inr rfl))) h2
+    have c := wantRG_of e eff1 .M21 (Or.inr (Or.inr rfl)) h1
+    have d := wantRG_of e eff2 .M21 (Or.inr (Or.inr rfl)) h2
+    simp only [genPosG, h1, h2, a, b, c, d]
+  case S12 => simp only [genPosG, h1, h2]
+
+theorem genPosX_mask_independent (e : Enum) (lc eff1 eff2 : Nat) (arcmode : Bool) (x : T) (o : Out)
+    (h1 : want e eff1 o = true) (h2 : want e eff2 o = true)
+    (hu : o = .lon2 → wantUnroll e eff1 = wantUnroll e eff2) :
+    genPosX e lc eff1 arcmode x o = genPosX e lc eff2 arcmode x o := by
+  cases o
+  case lat2 => simp only [genPosX, h1, h2]
+  case azi2 => simp only [genPosX, h1, h2]
+  case lon2 => simp only [genPosX, h1, h2, hu rfl]
+  case s12 =>
+    have a := wantLen_of e eff1 .s12 (Or.inl rfl) h1
+    have b := wantLen_of e eff2 .s12 (Or.inl rfl) h2
+    simp only [genPosX, h1, h2, a, b]
+  case m12 =>
+    have c := wantRG_of e eff1 .m12 (Or.inl rfl) h1
+    have d := wantRG_of e eff2 .m12 (Or.inl rfl) h2
+    simp only [genPosX, h1, h2, c, d]
+  case M12 =>
+    have c := wantRG_of e eff1 .M12 (Or.inr (Or.inl rfl)) h1
+    have d := wantRG_of e eff2 .M12 (Or.inr (Or.inl rfl)) h2
+    simp only [genPosX, h1, h2, c, d]
+  case M21 =>
+    have c := wantRG_of e eff1 .M21 (Or.inr (Or.inr rfl)) h1
+    have d := wantRG_of e eff2 .M21 (Or.inr (Or.inr rfl)) h2
+    simp only [genPosX, h1, h2, c, d]
+  case S12 => simp only [genPosX, h1, h2]
+
+/-- the line's capabilities contain all of a flag (output bit and the `CAP_x` bits it carries) -/
+def Covers (lc flag : Nat) : Prop := lc &&& flag = flag
+instance (lc flag : Nat) : Decidable (Covers lc flag) := by unfold Covers; infer_instance
+
+theorem testBit_of_covers {lc f : Nat} (h : Covers lc f) (k : Nat) (hk : f.testBit k = true) : lc.testBit k = true := by
+  have := congrArg (fun n => n.testBit k) h
+  simp only [Nat.testBit_and, hk, Bool.and_true] at this
+  exact this
+
+theorem fld_of_bit {lc k : Nat} (h : lc.testBit k = true) (name : String) : fld lc k name = .sym name := by
+  unfold fld; rw [if_pos h]
+
+theorem fld_full (lc k : Nat) (hk : k < 5) (name : String) : fld (lc ||| 31) k name = .sym name := by
+  apply fld_of_bit
+  rw [Nat.testBit_or]
+  have : (31 : Nat).testBit k = true := by
+    have : k = 0 ∨ k = 1 ∨ k = 2 ∨ k = 3 ∨ k = 4 := by omega
+    rcases this with rfl | rfl | rfl | rfl | rfl <;> decide
+  simp [this]
+
+/-- **series line, capabilities**: if `_caps` contains the whole flag of output `o` (and, in distance mode, the whole
+    of `DISTANCE_IN`), the term assigned to `o` reads only fields that `LineInit` has set: it is the term obtained
+    with every capability present.  (The `CAP_x` bits carried by each flag are those of the current header.) -/
+theorem genPosG_caps_independent (lc eff : Nat) (arcmode bigf : Bool) (x : T) (o : Out)
+    (hc : Covers lc (geod.flag o)) (hd : arcmode = false → Covers lc geod.distanceIn) :
+    genPosG geod lc eff arcmode bigf x o = genPosG geod (lc ||| 31) eff arcmode bigf x o := by
+  have f0 := fld_full lc 0 (by omega); have f1 := fld_full lc 1 (by omega); have f2 := fld_full lc 2 (by omega)
+  have f3 := fld_full lc 3 (by omega); have f4 := fld_full lc 4 (by omega)
+  cases arcmode
+  · -- distance mode: CAP_C1 and CAP_C1p are present
+    have d0 := fld_of_bit (testBit_of_covers (hd rfl) 0 (by decide))
+    have d1 := fld_of_bit (testBit_of_covers (hd rfl) 1 (by decide))
+    cases o
+    case lat2 => simp only [genPosG, sigG, ↓reduceIte, if_true, if_false, Bool.false_eq_true, f0, f1, d0, d1]
+    case azi2 => simp only [genPosG, sigG, ↓reduceIte, if_true, if_false, Bool.false_eq_true, f0, f1, d0, d1]
+    case s12 => simp only [genPosG, sigG, ↓reduceIte, if_true, if_false, Bool.false_eq_true, f0, f1, d0, d1]
+    case lon2 =>
+      have c3 := fld_of_bit (testBit_of_covers hc 3 (by decide))
+      simp only [genPosG, sigG, ↓reduceIte, if_true, if_false, Bool.false_eq_true, f0, f1, f3, d0, d1, c3]
+    case m12 =>
+      have c2 := fld_of_bit (testBit_of_covers hc 2 (by decide))
+      simp only [genPosG, sigG, ↓reduceIte, if_true, if_false, Bool.false_eq_true, f0, f1, f2, d0, d1, c2]
+    case M12 =>
+      have c2 := fld_of_bit (testBit_of_covers hc 2 (by decide))
+      simp only [genPosG, sigG, ↓reduceIte, if_true, if_false, Bool.false_eq_true, f0, f1, f2, d0, d1, c2]
+    case M21 =>
+      have c2 := fld_of_bit (testBit_of_covers hc 2 (by decide))
+      simp only [genPosG, sigG, ↓reduceIte, if_true, if_false, Bool.false_eq_true, f0, f1, f2, d0, d1, c2]
+    case S12 =>
+      have c4 := fld_of_bit (testBit_of_covers hc 4 (by decide))
+      simp only [genPosG, sigG, ↓reduceIte, if_true, if_false, Bool.false_eq_true, f0, f1, f4, d0, d1, c4]
+  · cases o
+    case lat2 => simp only [genPosG, sigG, ↓reduceIte, if_true, if_false, Bool.false_eq_true, if_true]
+    case azi2 => simp only [genPosG, sigG, ↓reduceIte, if_true, if_false, Bool.false_eq_true, if_true]
+    case s12 =>
+      have c0 := fld_of_bit (testBit_of_covers hc 0 (by decide))
+      simp only [genPosG, sigG, ↓reduceIte, if_true, if_false, Bool.false_eq_true, f0, c0]
+    case lon2 =>
+      have c3 := fld_of_bit (testBit_of_covers hc 3 (by decide))
+      simp only [genPosG, sigG, ↓reduceIte, if_true, if_false, Bool.false_eq_true, f3, c3]
+    case m12 =>
+      have c0 := fld_of_bit (testBit_of_covers hc 0 (by decide))
+      have c2 := fld_of_bit (testBit_of_covers hc 2 (by decide))
+      simp only [genPosG, sigG, ↓reduceIte, if_true, if_false, Bool.false_eq_true, f0, f2, c0, c2]
+    case M12 =>
+      have c0 := fld_of_bit (testBit_of_covers hc 0 (by decide))
+      have c2 := fld_of_bit (testBit_of_covers hc 2 (by decide))
+      simp only [genPosG, sigG, ↓reduceIte, if_true, if_false, Bool.false_eq_true, f0, f2, c0, c2]
+    case M21 =>
+      have c0 := fld_of_bit (testBit_of_covers hc 0 (by decide))
+      have c2 := fld_of_bit (testBit_of_covers hc 2 (by decide))
+      simp only [genPosG, sigG, ↓reduceIte, if_true, if_false, Bool.false_eq_true, f0, f2, c0, c2]
+    case S12 =>
+      have c4 := fld_of_bit (testBit_of_covers hc 4 (by decide))
+      simp only [genPosG, sigG, ↓reduceIte, if_true, if_false, Bool.false_eq_true, f4, c4]
+
+/-- **exact line, capabilities** (`CAP_E` = bit 0, `CAP_D` = bit 2, `CAP_H` = bit 3, `CAP_C4` = bit 4) -/
+theorem genPosX_caps_independent (lc eff : Nat) (arcmode : Bool) (x : T) (o : Out)
+    (hc : Covers lc (geodx.flag o)) (hd : arcmode = false → Covers lc geodx.distanceIn) :
+    genPosX geodx lc eff arcmode x o = genPosX geodx (lc ||| 31) eff arcmode x o := by
+  have f0 := fld_full lc 0 (by omega); have f2 := fld_full lc 2 (by omega)
+  have f3 := fld_full lc 3 (by omega); have f4 := fld_full lc 4 (by omega)
+  cases arcmode
+  · have d0 := fld_of_bit (testBit_of_covers (hd rfl) 0 (by decide))
+    cases o
+    case lat2 => simp only [genPosX, sigX, ↓reduceIte, Bool.false_eq_true, f0, d0]
+    case azi2 => simp only [genPosX, sigX, ↓reduceIte, Bool.false_eq_true, f0, d0]
+    case s12 => simp only [genPosX, sigX, ↓reduceIte, Bool.false_eq_true, f0, d0]
+    case lon2 =>
+      have c3 := fld_of_bit (testBit_of_covers hc 3 (by decide))
+      simp only [genPosX, sigX, ↓reduceIte, Bool.false_eq_true, f0, f3, d0, c3]
+    case m12 =>
+      have c2 := fld_of_bit (testBit_of_covers hc 2 (by decide))
+      simp only [genPosX, sigX, ↓reduceIte, Bool.false_eq_true, f0, f2, d0, c2]
+    case M12 =>
+      have c2 := fld_of_bit (testBit_of_covers hc 2 (by decide))
+      simp only [genPosX, sigX, ↓reduceIte, Bool.false_eq_true, f0, f2, d0, c2]
+    case M21 =>
+      have c2 := fld_of_bit (testBit_of_covers hc 2 (by decide))
+      simp only [genPosX, sigX, ↓reduceIte, Bool.false_eq_true, f0, f2, d0, c2]
+    case S12 =>
+      have c4 := fld_of_bit (testBit_of_covers hc 4 (by decide))
+      simp only [genPosX, sigX, ↓reduceIte, Bool.false_eq_true, f0, f4, d0, c4]
+  · cases o
+    case lat2 => simp only [genPosX, sigX, ↓reduceIte]
+    case azi2 => simp only [genPosX, sigX, ↓reduceIte]
+    case s12 =>
+      have c0 := fld_of_bit (testBit_of_covers hc 0 (by decide))
+      simp only [genPosX, sigX, ↓reduceIte, f0, c0]
+    case lon2 =>
+      have c3 := fld_of_bit (testBit_of_covers hc 3 (by decide))
+      simp only [genPosX, sigX, ↓reduceIte, f3, c3]
+    case m12 =>
+      have c2 := fld_of_bit (testBit_of_covers hc 2 (by decide))
+      simp only [genPosX, sigX, ↓reduceIte, f2, c2]
+    case M12 =>
+      have c2 := fld_of_bit (testBit_of_covers hc 2 (by decide))
+      simp only [genPosX, sigX, ↓reduceIte, f2, c2]
+    case M21 =>
+      have c2 := fld_of_bit (testBit_of_covers hc 2 (by decide))
+      simp only [genPosX, sigX, ↓reduceIte, f2, c2]
+    case S12 =>
+      have c4 := fld_of_bit (testBit_of_covers hc 4 (by decide))
+      simp only [genPosX, sigX, ↓reduceIte, f4, c4]
+
+/-! ### the theorems on `genPosition` (masks and capabilities as the user passes them) -/
+
+theorem mem_written_iff (e : Enum) (caps outmask : Nat) (arcmode : Bool) (o : Out) :
+    o ∈ written e caps outmask arcmode ↔ locatable e caps arcmode = true ∧ want e (effective e caps outmask) o = true := by
+  unfold written want
+  by_cases hl : locatable e caps arcmode = true
+  · have hall : o ∈ Out.all := by cases o <;> decide
+    simp [hl, List.mem_filter, hall]
+  · simp [hl]
+
+/-- **`value_mask_independent`**: for two masks under which output `o` is written (for `lon2`: which agree on
+    `LONG_UNROLL`), the dataflow model of `GenPosition` assigns the *same term* to `o`, whatever else is requested —
+    both line classes, arc and distance mode, with and without the Newton correction -/
+theorem value_mask_independent (e : Enum) (exact : Bool) (caps m1 m2 : Nat) (arcmode bigf : Bool) (x : T) (o : Out)
+    (h1 : o ∈ written e caps m1 arcmode) (h2 : o ∈ written e caps m2 arcmode)
+    (hu : o = .lon2 → wantUnroll e (effective e caps m1) = wantUnroll e (effective e caps m2)) :
+    genPosition e exact caps m1 arcmode bigf x o = genPosition e exact caps m2 arcmode bigf x o := by
+  rw [mem_written_iff] at h1 h2
+  unfold genPosition
+  rw [if_pos h1.1, if_pos h1.1]
+  cases exact
+  · simp only [Bool.false_eq_true, if_false]
+    exact genPosG_mask_independent e _ _ _ arcmode bigf x o h1.2 h2.2 hu
+  · simp only [if_true]
+    exact genPosX_mask_independent e _ _ _ arcmode x o h1.2 h2.2 hu
+
+/-- an output that is written is assigned a term, one that is not written is not -/
+theorem genPosition_isSome_iff (e : Enum) (exact : Bool) (caps m : Nat) (arcmode bigf : Bool) (x : T) (o : Out) :
+    (genPosition e exact caps m arcmode bigf x o).isSome = true ↔ o ∈ written e caps m arcmode := by
+  rw [mem_written_iff]
+  unfold genPosition
+  by_cases hl : locatable e caps arcmode = true
+  · rw [if_pos hl]
+    by_cases hw : want e (effective e caps m) o = true
+    · have hlen : (o = .m12 ∨ o = .M12 ∨ o = .M21) → wantRG e (effective e caps m) = true := fun ho => wantRG_of e _ o ho hw
+      cases exact <;> cases o <;> simp [genPosG, genPosX, hw, hl, hlen]
+    · have hw' : want e (effective e caps m) o = false := by simpa using hw
+      cases exact <;> cases o <;> simp [genPosG, genPosX, hw', hl]
+  · simp [hl]
+
+/-- **`value_caps_independent`**: with capabilities that contain the whole flag of `o` (as every union of the
+    documented constants that contains its output bit does), and the whole of `DISTANCE_IN` in distance mode, the
+    term assigned to `o` reads no field left unset by `LineInit`: it is the term of a line with all capabilities -/
+theorem value_caps_independent (exact : Bool) (caps m : Nat) (arcmode bigf : Bool) (x : T) (o : Out)
+    (hc : Covers (lineCaps (if exact then geodx else geod) caps) ((if exact then geodx else geod).flag o))
+    (hd : arcmode = false → Covers (lineCaps (if exact then geodx else geod) caps) (if exact then geodx else geod).distanceIn) :
+    (if exact then genPosX geodx (lineCaps geodx caps) m arcmode x o else genPosG geod (lineCaps geod caps) m arcmode bigf x o) =
+    (if exact then genPosX geodx (lineCaps geodx caps ||| 31) m arcmode x o
+     else genPosG geod (lineCaps geod caps ||| 31) m arcmode bigf x o) := by
+  cases exact
+  · simp only [Bool.false_eq_true, if_false] at hc hd ⊢
+    exact genPosG_caps_independent _ m arcmode bigf x o hc hd
+  · simp only [if_true] at hc hd ⊢
+    exact genPosX_caps_independent _ m arcmode x o hc hd
+
+/-- the flags of the current headers carry exactly the capability bits the model's `fld` tests assume -/
+theorem cap_bits :
+    geod.longitude &&& 31 = 8 ∧ geod.distance &&& 31 = 1 ∧ geod.distanceIn &&& 31 = 3 ∧ geod.reducedlength &&& 31 = 5 ∧
+    geod.geodesicscale &&& 31 = 5 ∧ geod.area &&& 31 = 16 ∧ geod.latitude &&& 31 = 0 ∧ geod.azimuth &&& 31 = 0 ∧
+    geodx.longitude &&& 31 = 8 ∧ geodx.distance &&& 31 = 1 ∧ geodx.distanceIn &&& 31 = 1 ∧ geodx.reducedlength &&& 31 = 4 ∧
+    geodx.geodesicscale &&& 31 = 4 ∧ geodx.area &&& 31 = 16 ∧ geodx.latitude &&& 31 = 0 ∧ geodx.azimuth &&& 31 = 0 := by
+  decide
+
+/-- non-vacuity: a line made with `DISTANCE_IN | REDUCEDLENGTH` covers `m12` and `DISTANCE_IN`; with masks
+    `REDUCEDLENGTH` and `ALL` the output `m12` is written in both cases -/
+example : Covers (lineCaps geod (geod_DISTANCE_IN ||| geod_REDUCEDLENGTH)) (geod.flag .m12) ∧
+    Covers (lineCaps geod (geod_DISTANCE_IN ||| geod_REDUCEDLENGTH)) geod.distanceIn ∧
+    Out.m12 ∈ written geod (geod_DISTANCE_IN ||| geod_REDUCEDLENGTH) geod_REDUCEDLENGTH false ∧
+    Out.m12 ∈ written geod (geod_DISTANCE_IN ||| geod_REDUCEDLENGTH) geod_ALL false := by decide
+
+/-! ### the third point -/
+
+/-- **`third_point` (distance)**: after `SetDistance(s)`, `Distance()` is `s` and `Arc()` is exactly the value that
+    `Position(Distance(), …)` (any mask) returns as `a12` — both calls address the same σ₁₂; a line without
+    `DISTANCE_IN` gets `a13 = NaN` -/
+theorem third_point_distance (e : Enum) (bigf : Bool) (L : Line) (s : T) :
+    (setDistance e bigf L s).s13 = some s ∧
+    (setDistance e bigf L s).a13 = genPositionRet e L.exact L.caps false bigf s ∧
+    (locatable e L.caps false = false → (setDistance e bigf L s).a13 = none) := by
+  refine ⟨rfl, rfl, ?_⟩
+  intro h; simp [setDistance, genPositionRet, h]
+
+/-- **`third_point` (arc)**: after `SetArc(a)`, `Arc()` is `a`, which is what `ArcPosition(Arc(), …)` returns as `a12`;
+    `Distance()` is the very term any `ArcPosition(a, mask ∋ DISTANCE)` assigns to `s12`, and NaN when the line
+    lacks the `DISTANCE` capability -/
+theorem third_point_arc (e : Enum) (he : e = geod ∨ e = geodx) (bigf : Bool) (L : Line) (a : T) :
+    (setArc e bigf L a).a13 = some a ∧
+    genPositionRet e L.exact L.caps true bigf a = some a ∧
+    (∀ m, Out.s12 ∈ written e L.caps m true →
+      genPosition e L.exact L.caps m true bigf a .s12 = (setArc e bigf L a).s13 ∧ (setArc e bigf L a).s13.isSome = true) ∧
+    ((lineCaps e L.caps).testBit Out.s12.bit = false → (setArc e bigf L a).s13 = none) := by
+  refine ⟨rfl, by simp [genPositionRet, locatable], ?_, ?_⟩
+  · intro m hm
+    have hd : Out.s12 ∈ written e L.caps e.distance true := by
+      rw [written_spec e he] at hm ⊢
+      refine ⟨hm.1, ?_, hm.2.2⟩
+      rcases he with rfl | rfl <;> decide
+    refine ⟨value_mask_independent e L.exact L.caps m e.distance true bigf a .s12 hm hd (by intro h; cases h), ?_⟩
+    exact (genPosition_isSome_iff e L.exact L.caps e.distance true bigf a .s12).mpr hd
+  · intro h
+    have : Out.s12 ∉ written e L.caps e.distance true := by
+      rw [written_spec e he]; intro hh; rw [h] at hh; exact absurd hh.2.2 (by decide)
+    have h2 : ¬ ((genPosition e L.exact L.caps e.distance true bigf a .s12).isSome = true) :=
+      fun hh => this ((genPosition_isSome_iff e L.exact L.caps e.distance true bigf a .s12).mp hh)
+    simpa [setArc] using h2
+
+/-- **`InverseLine`**: the line's `a13` is the `a12` of the inverse problem, and when the requested capabilities
+    include `DISTANCE_IN`, `DISTANCE` is added so that `s13` is set (to the `s12` term of arc `a12`) -/
+theorem inverseLine_third_point (e : Enum) (he : e = geod ∨ e = geodx) (exact bigf : Bool) (caps : Nat) (a12 : T) :
+    (inverseLine e exact bigf caps a12).a13 = some a12 ∧
+    (caps.testBit distanceInBit = true → (inverseLine e exact bigf caps a12).s13.isSome = true) := by
+  refine ⟨rfl, ?_⟩
+  intro h
+  have h1 : e.outMask &&& e.distanceIn = 1 <<< distanceInBit := by rcases he with rfl | rfl <;> decide
+  have hc : (caps &&& (e.outMask &&& e.distanceIn) != 0) = true := by rw [h1, and_pow_ne_zero]; exact h
+  unfold inverseLine
+  simp only [hc, if_true]
+  have hw : Out.s12 ∈ written e (caps ||| e.distance) e.distance true := by
+    rw [written_spec e he]
+    refine ⟨by simp [locatable], ?_, ?_⟩
+    · rcases he with rfl | rfl <;> decide
+    · unfold lineCaps
+      have : e.distance.testBit Out.s12.bit = true := by rcases he with rfl | rfl <;> decide
+      simp [Nat.testBit_or, this]
+  exact (genPosition_isSome_iff e exact (caps ||| e.distance) e.distance true bigf a12 .s12).mpr hw
+
+/-- `DirectLine` / `ArcDirectLine`: point 3 is point 2 of the direct problem -/
+theorem directLine_third_point (e : Enum) (exact bigf : Bool) (caps : Nat) (x : T) :
+    (directLine e exact bigf caps false x).s13 = some x ∧ (directLine e exact bigf caps true x).a13 = some x :=
+  ⟨rfl, rfl⟩
+
 end GeoVerif.Props.C12
